@@ -276,6 +276,11 @@ RecAddDefinition(BUILD, [_n, _k, _c], z3.If(
     SL.is_snil(_n), KV.knil,
     KV.kcons(SL.shd(_n), z3.If(HASKEY(_k, SL.shd(_n)), DESER(GET(_k, SL.shd(_n)), FH(_c, SL.shd(_n))), DEFAULT(_c, SL.shd(_n))),
              BUILD(SL.stl(_n), _k, _c))))
+BUILDM = RecFunction("BUILDM", SL, z3.ArraySort(S, B), z3.ArraySort(S, V), S, KV)   # dataclass __init__ from a keyword map
+_has, _val = z3.Const("has", z3.ArraySort(S, B)), z3.Const("val", z3.ArraySort(S, V))
+RecAddDefinition(BUILDM, [_n, _has, _val, _c], z3.If(
+    SL.is_snil(_n), KV.knil,
+    KV.kcons(SL.shd(_n), z3.If(z3.Select(_has, SL.shd(_n)), z3.Select(_val, SL.shd(_n)), DEFAULT(_c, SL.shd(_n))), BUILDM(SL.stl(_n), _has, _val, _c))))
 # STROF of a str is the str
 STROF_AX = lambda x: z3.Implies(V.is_Str(x), STROF(x) == V.s(x))
 
@@ -409,3 +414,22 @@ def _has_redex(e):
             return True
         stack.extend(x.children())
     return False
+
+
+# -------------------------------------------- precondition of the encoder --
+# SEROK(v): every dataclass instance inside v has distinct field names, none of them `_type`
+# (a language fact for the first half, a registry obligation for the second).
+SEROK = RecFunction("SEROK", V, B)
+SEROKL = RecFunction("SEROKL", VL, B)
+SEROKKV = RecFunction("SEROKKV", KV, B)
+RecAddDefinition(SEROK, [_v], ite(
+    (V.is_List(_v), SEROKL(V.items(_v))), (V.is_Tuple(_v), SEROKL(V.titems(_v))), (V.is_Set(_v), SEROKL(V.sitems(_v))),
+    (V.is_Dict(_v), SEROKKV(V.ents(_v))),
+    (V.is_DC(_v), z3.And(DISTINCT(V.flds(_v)), z3.Not(HASKEY(V.flds(_v), sv("_type"))), SEROKKV(V.flds(_v)))),
+    z3.BoolVal(True)))
+RecAddDefinition(SEROKL, [_l], z3.Or(VL.is_nil(_l), z3.And(SEROK(VL.hd(_l)), SEROKL(VL.tl(_l)))))
+RecAddDefinition(SEROKKV, [_k], z3.Or(KV.is_knil(_k), z3.And(SEROK(KV.val(_k)), SEROKKV(KV.rest(_k)))))
+MEMV = RecFunction("MEMV", VL, V, B)
+RecAddDefinition(MEMV, [_l, _x], z3.And(VL.is_cons(_l), z3.Or(VL.hd(_l) == _x, MEMV(VL.tl(_l), _x))))
+MEMKV = RecFunction("MEMKV", KV, S, V, B)
+RecAddDefinition(MEMKV, [_k, _s, _x], z3.And(KV.is_kcons(_k), z3.Or(z3.And(KV.key(_k) == _s, KV.val(_k) == _x), MEMKV(KV.rest(_k), _s, _x))))
